@@ -93,10 +93,24 @@ PROPS = {
         rules=["ObserverTotal"],
         shards=12,
     ),
+    "C16": dict(
+        gen=[dict(module="Gen_Packet", cfg="Gen_Packet.cfg", out="packet_cases.ndjson",
+                  simulate=dict(quick="num=500", thorough="num=8000", depth=40)),
+             dict(module="Gen_Instance", cfg="Gen_Instance.cfg", out="instance_cases.ndjson")],
+        topic="values",
+        rules=["NoPanic", "OwnEqual", "EqSpec", "EqHash"],
+        shards=14,
+    ),
     "C17": dict(
         gen=[dict(module="Gen_NameText", cfg="Gen_NameText.cfg", cfg_thorough="Gen_NameText_thorough.cfg", out="text_cases.ndjson")],
         topic="nametext",
         rules=["NoPanic", "NameGrammar", "NameDisplay", "SuffixAlgebra"],
+        shards=12,
+    ),
+    "C19": dict(
+        gen=[dict(module="Gen_Txt", cfg="Gen_Txt.cfg", cfg_thorough="Gen_Txt_thorough.cfg", out="txt_cases.ndjson")],
+        topic="txt",
+        rules=["NoPanic", "TxtPieces", "TxtJoin", "TxtAttrs", "TxtLong", "CStrLimit"],
         shards=12,
     ),
     "C18": dict(
@@ -265,5 +279,28 @@ TEXT = {
               "both builds to succeed and both re-parses to equal the first parse in every observable field."),
         note=_TRUSTED,
         technique="TLC-enumerated foreign encodings replayed; parse/build/parse sessions validated by the TLA+ trace spec",
+    ),
+    "C16": dict(
+        text=("For every question, record, RDATA value and name of every packet produced by the builder state machine, "
+              "both as built from parts and as parsed out of a receive buffer, the harness records into_owned / clone "
+              "against the original (projection, ==, serialised bytes), parsed-vs-built pairs, records differing only "
+              "in TTL / cache-flush and records differing in class; TLC (Gen_Instance) generates every insertion order "
+              "of up to 3 addresses and ports for instance information. TLC judges in the trace specification: copies "
+              "equal originals and serialise identically (OwnEqual), == coincides with the documented equality of "
+              "Values.tla (EqSpec), and equal values have equal hashes under a fixed-key hasher (EqHash)."),
+        note=_TRUSTED,
+        technique="TLA+ equality spec (Values.tla); builder behaviours and TLC-enumerated insertion orders replayed; trace validation",
+    ),
+    "C19": dict(
+        text=("TLC enumerates every string up to length 4 (thorough 5) over {a ; = U+013B U+013D U+00E9 U+1F600} and every "
+              "attribute map with up to 3 keys and absent/empty/non-empty values, checking the Ref identities of Txt.tla; "
+              "the real crate converts each (TXT::try_from(&str), String::try_from, TXT::try_from(map), attributes, "
+              "long_attributes), plus texts of 0..5000 bytes with 1-4-byte characters straddling every multiple of "
+              "254/255, entries around the 255-byte limit, duplicate keys, and character-strings of every length 0..300 "
+              "through each constructor. TLC judges: pieces <= 255 bytes concatenating to the UTF-8 of the text, join "
+              "returns the text, attributes read back equal the map (absent /= empty, first key wins), long_attributes "
+              "splits only at ';' and the first '=', over-long strings are refused."),
+        note=_TRUSTED,
+        technique="TLA+ Txt spec; TLC-enumerated strings/maps replayed into the crate; trace validation",
     ),
 }
